@@ -12,7 +12,13 @@ import (
 
 func init() {
 	gens["C16"] = c16Gen
-	execs["C16"] = execC16
+	execs["C16"] = func(r *RNG, c *Case) {
+		if c.Prop == "REL" {
+			execRel(r, c)
+			return
+		}
+		execC16(r, c)
+	}
 	shrinkers["C16"] = shrinkText
 }
 
@@ -83,6 +89,13 @@ func c16Valid(r *RNG) (ids, descs, seqs []string) {
 }
 
 func c16Gen(r *RNG, id string) *Case {
+	if r.Chance(1, 12) {
+		// the readers as `variants` strings them together (find the reference, rewind, stream the alignment): the output
+		// must not depend on the layout of the alignment file
+		vc := genVarCase(r, id, varOpts{fmtWeights: [2]int{1, 1}, withIns: r.Bool(), maxGenes: 2})
+		vc.Set("via", "")
+		return relOf(vc, "layout", "eq")
+	}
 	c := NewCase("C16", id)
 	ids, descs, seqs := c16Valid(r)
 	text := renderLayout(r, descs, seqs)
